@@ -183,98 +183,63 @@ def _de_selection(ctx, key, f):
 
 @rule('C01.c', min_instances=8)
 def de_energy_stored_with_its_point(ctx):
-    """DE/DE2 _Step: a member/best energy is replaced only under a strict <, by the energy returned for the very vector stored with it, with no write to that vector in between"""
+    """DE/DE2 _Step (every path, locals substituted, roles from the data flow): a member/best energy is replaced only where the path knows `trial energy < incumbent` (strict), by the energy the objective returned for the very vector stored with it, and the trial vector is not written between its evaluation and the stores"""
+    from . import deselect as DS
     for key in ('DE', 'DE2'):
         cls = ctx.cls(CONCRETE_SOLVERS[key])
         f = ctx.touch(ctx.model.lookup_method(cls, '_Step'))
-        sn = selfname_of(f)
-        S = ('name', sn)
-        trial = ('attr', S, 'trialSolution')
-        defs = _trial_energy_defs(f)
-        ctx.need(defs, 'no trialEnergy definition in %s._Step' % cls.name)
-        # classify the definitions of trialEnergy
-        evaldef = None
-        for d in defs:
-            v = t(d.value)
-            if key == 'DE' and v == ('call', ('name', 'cost'), (trial,), ()):
-                evaldef = d
-            elif key == 'DE2' and v[0] == 'call' and v[1] == ('attr', S, '_map') and len(v[2]) >= 2 and v[2][0] == ('name', 'cost') and v[2][1] == trial:
-                evaldef = d
-            elif v == ('sub', ('name', 'trialEnergy'), T.num(0)) or v == ('call', ('name', 'ravel'), (('name', 'trialEnergy'),), ()):
-                pass   # unwrapping a 1-element result
-            else:
-                ctx.bad('%s._Step#energy' % cls.name, 'the trial energy is recomputed/transformed after the evaluation: %s' % norm_stmt(d), f, d)
-        ctx.check(evaldef is not None, '%s._Step#evaluation' % cls.name, 'trialEnergy = %s' % ('cost(self.trialSolution)' if key == 'DE' else 'self._map(cost, self.trialSolution, ...)'),
-                  'the trial energy is no longer the objective evaluated at the trial vector(s)', f, defs[0])
-        if evaldef is None:
-            continue
-        groups = _de_selection(ctx, key, f)
-        members = [g for g in groups if g[0] == 'member']
-        bests = [g for g in groups if g[0] == 'best']
-        for g in groups:
-            if g[0] == 'reversed':
-                ctx.bad('%s._Step#selection' % cls.name, 'selection test %s is oriented the wrong way round' % T.show(g[2]), f, g[1])
-        ctx.need(members and bests, 'selection tests not found in %s._Step' % cls.name)
-        for kind, node, tt in members + bests:
-            construct = '%s._Step#%s' % (cls.name, kind)
-            E = tt[2]
-            idx = tt[3][2] if kind == 'member' else None
-            ctx.check(tt[1] == '<', construct + '#strict', 'replacement only under a strict < (%s)' % T.show(tt),
-                      'a %s is replaced by a trial that is not strictly better: %s' % (kind, T.show(tt)), f, node)
-            # energy / point relation
-            if key == 'DE':
-                e_ok = E == ('name', 'trialEnergy')
-                P = trial
-            else:
-                e_ok = E[0] == 'sub' and E[1] == ('name', 'trialEnergy') and (idx is None or E[2] == idx)
-                P = ('sub', trial, E[2]) if e_ok else None
-            ctx.check(e_ok, construct + '#energy', 'compared energy is the trial\'s own energy',
-                      'the energy compared (%s) is not the energy of the trial with the same index' % T.show(E), f, node)
-            if not e_ok:
+        r = DS.analyse(ctx, key, f)
+        sn, mode = r['sn'], r['mode']
+        for node, v in r['transformed']:
+            ctx.bad('%s._Step#energy' % cls.name, 'the trial energy is recomputed/transformed after the evaluation: %s' % norm_stmt(node), f, node)
+        ctx.ok('%s._Step#evaluation' % cls.name, '%s = %s' % (r['energy_var'], 'objective(self.trialSolution)' if mode == 'direct' else 'self._map(objective, self.trialSolution, ...)'),
+               f, r['evals'][0][0])
+        loop_stores = [st for st in r['stores'] if st.in_loop > 0 and st.kind != 'trial']
+        ctx.need(any(st.kind == 'member-energy' for st in loop_stores) and any(st.kind == 'best-energy' for st in loop_stores),
+                 'selection stores not found in %s._Step' % cls.name)
+        results = {}
+        for st in loop_stores:
+            il = DS.improvement_literal(st, sn, mode)
+            kind = st.kind
+            if il is None:
+                results.setdefault((kind, 'guard'), []).append((False, st, 'the store does not address one member'))
                 continue
-            e_store = p_store = None
-            for st in node.body:
-                if not isinstance(st, ast.Assign) or len(st.targets) != 1:
-                    continue
-                tg = t(st.targets[0])
-                val = t(st.value)
-                if kind == 'member':
-                    if tg == ('sub', ('attr', S, 'popEnergy'), idx):
-                        e_store = (st, val)
-                    if tg == ('sub', ('sub', ('attr', S, 'population'), idx), ('slice', None, None, None)) or tg == ('sub', ('attr', S, 'population'), idx):
-                        p_store = (st, val)
-                else:
-                    if tg == ('attr', S, 'bestEnergy'):
-                        e_store = (st, val)
-                    if tg == ('sub', ('attr', S, 'bestSolution'), ('slice', None, None, None)) or tg == ('attr', S, 'bestSolution'):
-                        p_store = (st, val)
-            ctx.check(e_store is not None and e_store[1] == E, construct + '#store-energy', 'stores the compared energy',
-                      'under %s the stored energy is %s' % (T.show(tt), T.show(e_store[1]) if e_store else 'missing'), f, e_store[0] if e_store else node)
-            pv = p_store[1] if p_store else None
-            p_ok = pv is not None and (pv == P or pv == ('sub', P, ('slice', None, None, None)))
-            ctx.check(p_ok, construct + '#store-point', 'stores the vector the energy was computed for (%s)' % T.show(P),
-                      'under %s the stored vector is %s, not the evaluated trial %s' % (T.show(tt), T.show(pv) if pv else 'missing', T.show(P)), f, p_store[0] if p_store else node)
-        # no write to the trial vector between evaluation and the stores
-        all_st = stmts_of(f.node)
-        first_sel = min(n.lineno for _, n, _ in members)
-        last_store = max(getattr(n, 'end_lineno', n.lineno) for _, n, _ in members + bests)
-        writes = []
-        for st in all_st:
-            if st.lineno <= evaldef.lineno or st.lineno > last_store:
-                continue
-            if isinstance(st, (ast.Assign, ast.AugAssign)):
-                for tg in store_targets(st):
-                    base = tg
-                    while isinstance(base, ast.Subscript):
-                        base = base.value
-                    if is_self_attr(base, 'trialSolution', sn):
-                        writes.append(st)
-            for c in calls_where(st, lambda c: isinstance(c.func, ast.Name) and c.func.id == 'strategy', include_lambda=False):
-                if st.lineno < first_sel or st.lineno > evaldef.lineno:
-                    if not isinstance(st, (ast.If, ast.For)):
-                        writes.append(st)
-        ctx.check(not writes, '%s._Step#no-write' % cls.name, 'the trial vector is not written between its evaluation and the stores',
-                  'the trial vector is modified after it was evaluated and before it is stored: %s' % (norm_stmt(writes[0]) if writes else ''), f, writes[0] if writes else evaldef)
+            lit, en, pt = il
+            known = (lit, True) in st.lits
+            nonstrict = (('cmp', '<=') + lit[2:], True) in st.lits
+            msg = ''
+            if not known:
+                msg = 'replaced by a trial that is not known to be strictly better (%s)' % ('only `<=` is established' if nonstrict else 'no `%s` on the path' % T.show(lit)[:60])
+            results.setdefault((kind, 'strict'), []).append((known, st, msg))
+            if kind.endswith('energy'):
+                ok = en is not None and st.value == en
+                results.setdefault((kind, 'value'), []).append((ok, st, 'the stored energy is %s, not the energy the objective returned for this trial' % T.show(st.value)[:60]))
+            else:
+                val = DS._strip_slice(st.value)
+                val = val[2][0] if (val[0] == 'call' and T.show(val[1]) in ('copy', 'list') and len(val[2]) == 1) else val
+                ok = pt is not None and val == pt
+                results.setdefault((kind, 'value'), []).append((ok, st, 'the stored vector is %s, not the evaluated trial %s' % (T.show(st.value)[:60], T.show(pt)[:40] if pt else '?')))
+            results.setdefault((kind, 'evaluated'), []).append((st.evaluated, st, 'the store happens on a path on which the objective has not been evaluated for this trial'))
+        for (kind, what), items in sorted(results.items()):
+            bad = [(st, m) for ok, st, m in items if not ok]
+            ctx.check(not bad, '%s._Step#%s#%s' % (cls.name, kind, what), '%d store events: %s' % (len(items), {'strict': 'strict improvement known on the path', 'value': 'stores the trial\'s own energy / vector',
+                      'evaluated': 'after the evaluation', 'guard': 'addresses one member'}[what]),
+                      '%s: %s (path %s)' % (kind, bad[0][1] if bad else '', bad[0][0].path.describe(6) if bad else ''), f, bad[0][0].node if bad else items[0][1].node)
+        # energy and point of a member / of the best are replaced together
+        for a, b_ in (('member-energy', 'member-point'), ('best-energy', 'best-point')):
+            la = set(tuple(st.lits) for st in loop_stores if st.kind == a)
+            lb = set(tuple(st.lits) for st in loop_stores if st.kind == b_)
+            lone = [st for st in loop_stores if st.kind in (a, b_) and not any(_prefix(tuple(st.lits), o) or _prefix(o, tuple(st.lits)) for o in (lb if st.kind == a else la))]
+            ctx.check(not lone, '%s._Step#%s+%s' % (cls.name, a, b_), 'energy and vector are replaced on the same paths',
+                      'a path replaces the %s without the matching %s' % (lone[0].kind if lone else '', b_ if lone and lone[0].kind == a else a), f, lone[0].node if lone else f.node)
+        # the trial is not touched between evaluation and stores
+        late = [st for st in r['stores'] if st.kind == 'trial' and st.evaluated]
+        ctx.check(not late, '%s._Step#no-write' % cls.name, 'the trial vector is not written between its evaluation and the stores',
+                  'the trial vector is modified after it was evaluated and before it is stored: %s' % (norm_stmt(late[0].node) if late else ''), f, late[0].node if late else f.node)
+
+
+def _prefix(a, b):
+    return len(a) <= len(b) and b[:len(a)] == a
 
 
 def _local_def(f, name):
